@@ -177,6 +177,10 @@ func genFuncR(p *Program, w *World, fn *ssa.Function, con *Contract, excepts map
 		for _, r := range con.Requires {
 			e.S.assume(e.elabClause(env, r))
 		}
+		for _, r := range con.Assumes {
+			e.S.assume(e.elabClause(env, r))
+			e.Assumptions["assumed-precondition:"+displayName(fn)+"."+r.ID+" (the body is verified under it; callers are not asked to establish it): "+trunc(r.Src, 160)] = true
+		}
 		for _, m := range con.Modifies {
 			ts, all := e.resolveMod(env, m)
 			if all {
